@@ -54,6 +54,20 @@ def cast(value: typing.Any) -> 'dsl.Feature':
     return value
 
 
+def identical(left: 'dsl.Feature', right: 'dsl.Feature') -> bool:
+    """Structural identity of two features from the Python perspective (hash collisions of their
+    leaf values - ie ``hash(-1) == hash(-2)`` - must not make distinct features equal).
+
+    Args:
+        left: Left feature.
+        right: Right feature.
+
+    Returns:
+        True if both features are of the same type and have equal (recursively identical) content.
+    """
+    return left.__class__ is right.__class__ and hash(left) == hash(right) and tuple.__eq__(left, right)
+
+
 class Feature(tuple, metaclass=abc.ABCMeta):
     """Base class of the individual *columnar* data series features.
 
@@ -790,7 +804,7 @@ class Comparison(Predicate):
 
         def __bool__(self):
             if self.operator is Equal:
-                return hash(self.left) == hash(self.right)
+                return identical(self.left, self.right)
             if self.operator is LessThan:
                 return repr(self.left) < repr(self.right)
             raise RuntimeError(f'Unexpected Pythonic comparison using {self.operator}')
@@ -864,7 +878,7 @@ class Equal(Comparison, Infix):
             This doesn't reflect mathematical commutativity - order of potential sub-expression
             operands matters.
         """
-        return hash(self.left) == hash(self.right)
+        return identical(self.left, self.right)
 
 
 class NotEqual(Comparison, Infix):
